@@ -13,6 +13,14 @@ CLAIMED = {
             "TLC checks that every step of the explicit-stack machine is defined on the bounded program family and enumerates the built-in call matrix; each call, the 16x16 integer boundary grid and error-injected programs are run by the real interpreter and must end in a value or a Garden-level error",
             "bounded: the call matrix covers every listed built-in with one representative value per kind; a harness timeout counts as non-termination, not as a crash",
             "DESIGN.md §6 C02"),
+    "C03": (MC, "TLC enumerates operator chains and their left fold (Syntax.tla LeftFold); the parser's tree (hook `ast`) must equal it; integer chains confirmed by value",
+            "exhaustive over chains of length 2..4 (quick) / 2..6 (thorough) x 3 operator classes (complete for shape) x rotations covering all 21 operators x operand patterns; the real parser must build exactly the left fold",
+            "tools/rustdebug.py (removal of positions / ids from the parser's own dump) is trusted; tree shape only depends on operator positions, not on which operator",
+            "DESIGN.md §6 C03"),
+    "C04": (MC, "TLA+ integer arithmetic (Int64.tla) with a TLC-checked limb refinement, evaluated by TLC at 64 bits and replayed into the interpreter",
+            "TLC proves the 8-bit-limb operators equal the mathematical definition exhaustively at W=8 and on a grid at W=16, evaluates them at W=64 on boundary x boundary and random operands; the interpreter's printed value or exception must agree, and += / -= must match + / -",
+            "float numerics (IEEE results) are excluded: only exceptions, operand typing and closure are checked for floats",
+            "DESIGN.md §6 C04, §7"),
     "C05": (MC, "TLA+ reference semantics (Ref.tla) evaluated by TLC on generated programs, replayed into the interpreter; Machine.tla refinement checked by TLC",
             "TLC evaluates the big-step reference semantics on every generated core-language program and the real interpreter's stdout, outcome variant and failing line must equal it; bounded (seeded programs), not a proof",
             "trusts Ref.tla's PINNED clauses (evaluation order, closure snapshot) as the language definition; integers below 1e9; programs from tools/gen_prog.py only",
@@ -37,6 +45,18 @@ CLAIMED = {
             "TLC aborts every stopped state of error-heavy programs and checks the clean-state invariant; 216 real abort situations are probed (names, locals of aborted frames, :resume :stack :fstmts :locals) and must answer exactly like a fresh session with the same definitions and variables",
             ":fvalues is excluded from the probes (legitimate difference); the failing call is a named function so top-level variables are unaffected by the aborted evaluation",
             "DESIGN.md §6 C10"),
+    "C12": (MC, "TLC: Display.tla StringRoundTrip over all strings of a 9-symbol alphabet (MC_Display) and Disp evaluated on the value pool; both the printed form and its re-reading checked on the interpreter",
+            "for every pool value the interpreter's string_repr must equal the specified printed form, and that text must parse, re-print identically and compare equal",
+            "equality-only failures are attributed to C13; arbitrary floats are not specified",
+            "DESIGN.md §6 C12"),
+    "C13": (MC, "TLC evaluates structural equality (Display.tla VEq) on pairs of the value pool; programs compare two separately constructed values",
+            "reflexive, same-kind, cross-kind and near-miss pairs: a == b, a != b and b == a printed by the interpreter must equal VEq(a, b) and its negation",
+            "pairs are bounded by the pool; transitivity follows from agreement with an equivalence on all compared pairs",
+            "DESIGN.md §6 C13"),
+    "C33": (MC, "TLC enumerates Syntax.tla tree families and prints seeded programs (P / S operators); the parser must rebuild the same tree",
+            "every tree of ExprTrees(d) / StmtTrees(d) (d=1 quick, 2 thorough) and generated programs printed by the specification must parse without errors to exactly the printed tree; Print injective on the family",
+            "the families cover the core grammar; structs/dicts/imports/tests are exercised elsewhere",
+            "DESIGN.md §6 C33"),
 }
 
 PENDING = "check not built yet in this round (see DESIGN.md §11 build order); no claim is made"
